@@ -39,6 +39,18 @@ impl RequestHandler<PrepareRenameRequest> for PrepareRenameRequestHandler {
                 }
                 let line = source_file.file.source_line(source_line);
 
+                // Columns count characters (like every position we report); the slices below need a byte index.
+                // A column beyond the end of the line does not refer to anything.
+                let source_column = match line
+                    .char_indices()
+                    .map(|(idx, _)| idx)
+                    .chain(std::iter::once(line.len()))
+                    .nth(source_column)
+                {
+                    Some(byte_idx) => byte_idx,
+                    None => return Ok(None),
+                };
+
                 // Try to find the start of identifier under the cursor
                 let start = line[..source_column]
                     .rfind(|c: char| !c.is_alphanumeric() && c != '_')
@@ -67,7 +79,7 @@ impl RequestHandler<PrepareRenameRequest> for PrepareRenameRequestHandler {
                         file_path.to_str().unwrap(),
                         LineCol {
                             line: source_line,
-                            column: source_column,
+                            column: params.position.character as usize,
                         },
                     )
                     .is_empty()
@@ -76,11 +88,11 @@ impl RequestHandler<PrepareRenameRequest> for PrepareRenameRequestHandler {
                     let range = lsp_types::Range {
                         start: lsp_types::Position {
                             line: source_line as u32,
-                            character: start as u32,
+                            character: line[..start].chars().count() as u32,
                         },
                         end: lsp_types::Position {
                             line: source_line as u32,
-                            character: end as u32,
+                            character: line[..end].chars().count() as u32,
                         },
                     };
                     return Ok(Some(PrepareRenameResponse::Range(range)));
